@@ -13,6 +13,7 @@
 #include "as.rsc"
 
 #include "as.h"
+#include "verif_hooks.h"
 #include "asmallg.h"
 #include "asmcode.h"
 #include "asmdebug.h"
@@ -3172,7 +3173,7 @@ static void AssembleFile(char* Name) {
         printf("%s%s\n", getmessage(Num_InfoMessAssembling), SourceFile);
     }
 
-    do {
+    do VERIF_LOOP(as_passloop) {
         /* Durchlauf initialisieren */
 
         AssembleFile_InitPass();
